@@ -33,7 +33,7 @@ tvars == <<tid, l, ms, ob, fail, info>>
 SeqToSet(s) == {s[i] : i \in 1..Len(s)}
 CfgOf(o) == [S |-> o.S, M |-> o.mode, vars |-> SeqToSet(o.vars), period |-> o.period, tol |-> o.tol]
 InitMs(c) == [i \in 1..Len(c.objs) |-> NewObj(CfgOf(c.objs[i]))]
-InitOb(c) == [i \in 1..Len(c.objs) |-> [on |-> <<>>, off |-> <<>>, offt |-> <<>>, dead |-> FALSE]]
+InitOb(c) == [i \in 1..Len(c.objs) |-> [on |-> <<>>, off |-> <<>>, offt |-> <<>>, dead |-> FALSE, gets |-> <<>>]]
 \* Python raises on the operations the README leaves undefined (division by zero, sqrt/log domain,
 \* overflow); when the model meets Undef in some sub-formula such an exception is "undefined", not a
 \* failure, and the object is not examined any further (its internal state is unknown)
@@ -141,6 +141,36 @@ ApplyEvaluate(m, o, e, step) ==
             ELSE Ok IN
   R(m2, o2, f0 \o f1 \o f2 \o f3 \o f4, u)
 
+\* get_value(n): C12.  obj.names maps every assertion / sub-specification name to its (inlined) formula.
+\*   input variable        -> the data supplied (offline: the list, online: the current sample)
+\*   offline               -> Sig(formula of n) on the evaluated data
+\*   online                -> its current value; after pastify() the value of the stand-alone pastified formula
+\*                            of n, i.e. the robustness delayed by n's own horizon (defined once k > h_n)
+IsVarName(m, n) == n \in m.cfg.vars
+ApplyGet(m, o, e, obj, step) ==
+  LET f0 == ExcClass(TRUE, e, "get.exc", step)
+      o2 == [o EXCEPT !.gets = Append(o.gets, [n |-> e.n, v |-> e.ret, k |-> Len(m.outOn)])] IN
+  IF f0 # Ok THEN R(m, o2, f0, 0)
+  ELSE IF m.phase = "offline" THEN
+    LET N == Len(m.ts)
+        ex == IF IsVarName(m, e.n) THEN m.hist[e.n] ELSE Sig(obj.names[e.n], m.hist, N, m.cfg.S, m.cfg.M)
+        f1 == IF e.scalar THEN F("get.shape", step, "list", "scalar")
+              ELSE IF Len(e.ret) # N THEN F("get.len", step, N, Len(e.ret))
+              ELSE IF \E k \in 1..N : ex[k] # Undef /\ e.ret[k] # ex[k] THEN F("get.value", step, ex, e.ret)
+              ELSE Ok IN
+    R(m, o2, f1, 0)
+  ELSE IF m.phase = "online" /\ Len(m.outOn) > 0 THEN
+    LET k == Len(m.outOn)
+        pn == IF IsVarName(m, e.n) THEN Null ELSE obj.names[e.n]
+        h == IF IsVarName(m, e.n) \/ m.inst = m.phi THEN 0 ELSE Hor(pn)
+        ex == IF IsVarName(m, e.n) THEN m.hist[e.n][k]
+              ELSE IF k > h THEN Sig(pn, m.hist, k, m.cfg.S, m.cfg.M)[k - h] ELSE Undef
+        f1 == IF ~e.scalar THEN F("get.shape", step, "scalar", "list")
+              ELSE IF ex # Undef /\ e.ret[1] # ex THEN F("get.value", step, ex, e.ret[1])
+              ELSE Ok IN
+    R(m, o2, f1, 0)
+  ELSE R(m, o2, Ok, 0)
+
 Apply(c, e, step) ==
   LET m == ms[e.o] o == ob[e.o] obj == c.objs[e.o] IN
   IF o.dead THEN R(m, o, Ok, 0) ELSE
@@ -149,6 +179,7 @@ Apply(c, e, step) ==
     [] e.a = "update"   -> ApplyUpdate(m, o, e, step)
     [] e.a = "reset"    -> ApplyReset(m, o, e, step)
     [] e.a = "evaluate" -> ApplyEvaluate(m, o, e, step)
+    [] e.a = "get"      -> ApplyGet(m, o, e, obj, step)
 
 \* relations between the objects of a case, evaluated when all its events are consumed
 RelFail(c, r) ==
@@ -168,6 +199,14 @@ RelFail(c, r) ==
          ELSE IF SatUndef(m.phi, r.X, N, m.cfg.S) THEN Ok
          ELSE IF Sat(m.phi, r.X, N, m.cfg.S)[r.t] = Sat(m.phi, m.hist, N, m.cfg.S)[r.t] THEN Ok
          ELSE F("rel.ball", r.t, <<v, m.hist>>, r.X)
+    [] r.rel = "get_off" ->          \* C12 offline: get_value(n) on x = the result of the stand-alone object y
+         LET gs == SelectSeq(ob[r.x].gets, LAMBDA g : g.n = r.n) IN
+         IF gs = <<>> THEN F("rel.get_off", 0, "a get_value observation", "none")
+         ELSE IF gs[Len(gs)].v = ob[r.y].off THEN Ok ELSE F("rel.get_off", 0, ob[r.y].off, gs[Len(gs)].v)
+    [] r.rel = "get_on" ->           \* C12 online: the get_value(n) after the k-th update = k-th return of the stand-alone y
+         LET gs == SelectSeq(ob[r.x].gets, LAMBDA g : g.n = r.n /\ g.k >= r.k) IN
+         IF \A i \in 1..Len(gs) : gs[i].k <= Len(ob[r.y].on) /\ gs[i].v = <<ob[r.y].on[gs[i].k]>> THEN Ok
+         ELSE F("rel.get_on", 0, ob[r.y].on, gs)
     [] r.rel = "same_on_from" ->     \* agree from index r.k on (1-based)
          LET a == ob[r.x].on b == ob[r.y].on IN
          IF Len(a) = Len(b) /\ \A t \in 1..Len(a) : t >= r.k => a[t] = b[t] THEN Ok
